@@ -507,6 +507,27 @@ class Atom(tuple):
         return self[0]
 
 
+class _Opaque:
+    """hashable holder (by identity of the call site data) for JSON payloads carried in a context tuple"""
+    __slots__ = ("v", "k")
+
+    def __init__(self, v):
+        self.v = v
+        self.k = repr(v)
+
+    def __hash__(self):
+        return hash(self.k)
+
+    def __eq__(self, o):
+        return isinstance(o, _Opaque) and o.k == self.k
+
+    def __iter__(self):
+        return iter(self.v)
+
+    def __getitem__(self, i):
+        return self.v[i]
+
+
 class Origins:
     """Backward, flow-insensitive, field-sensitive value-flow over one or more bodies
     (call-string bounded descent into workspace callees and closures)."""
@@ -780,7 +801,7 @@ class Origins:
             for i, agg in clos:
                 cb = self.p.bodies.get(agg["def"])
                 if cb is not None and len(ctx) < self.max_depth + 1:
-                    self._place(cb, 0, (), ctx + ((body.path, bb, "closure", (agg["ops"], others)),), acc, seen)
+                    self._place(cb, 0, (), ctx + ((body.path, bb, "closure", _Opaque((agg["ops"], others))),), acc, seen)
                 else:
                     acc.add(Atom(("closure", agg["def"], "", "")))
             return
